@@ -113,21 +113,27 @@ def amplifies_rounding(scn, execu, rel):
     the initial position up beyond the comparison tolerance?  If so the
     differential cannot judge it (numerically unstable scenario)."""
     a = copy.deepcopy(scn)
-    runs = [o for o in a['schedule'] if o['op'] == 'run']
-    cut = next((i for i, o in enumerate(a['schedule'])
-                if o['op'] == 'reset'), len(a['schedule']))
-    a['schedule'] = a['schedule'][:cut]
     b = copy.deepcopy(a)
+    # perturbations far above one ulp and far below the tolerance: a model
+    # that turns 1e-13 into more than rel/100 amplifies rounding by > 1e3
     p = b['init']['position']
-    p[0] = p[0] * (1 + 1e-15) if p[0] != 0 else 1e-15
+    p[0] = p[0] * (1 + 1e-13) if p[0] != 0 else 1e-13
+    w = b['init']['speed']
+    w[0] = w[0] * (1 + 1e-13)
+    if b.get('load'):
+        b['load']['noise'] = 1e-13
     HA, HB = execu.execute(a), execu.execute(b)
     va, vb = View(a, HA), View(b, HB)
-    if not (va.ok and vb.ok) or va.epochs[0]['dump'] is None or \
-            vb.epochs[0]['dump'] is None:
+    if not (va.ok and vb.ok):
         return False
     from collections import Counter
-    d = compare(va, va.epochs[0], vb, vb.epochs[0], rel / 100, Counter())
-    return d is not None and d['what'] != 'length'
+    for ea, eb in zip(va.epochs, vb.epochs):
+        if ea['dump'] is None or eb['dump'] is None:
+            continue
+        d = compare(va, ea, vb, eb, rel / 100, Counter())
+        if d is not None and d['what'] != 'length':
+            return True
+    return False
 
 
 def check_pair(out, tag, va, ea, vb, eb, rel, stats, scn=None, execu=None):
